@@ -60,7 +60,7 @@ class RunResult:
         self.tmpdir = None
 
 
-def run_script(drv, lines, workdir, tmpdir_mode=False, env=None, wrapper=None, cpu_s=60, wall_s=120):
+def run_script(drv, lines, workdir, tmpdir_mode=False, env=None, wrapper=None, cpu_s=60, wall_s=120, tracedir=None):
     """lines: list of script lines (without trailing newline)."""
     os.makedirs(workdir, exist_ok=True)
     sp = os.path.join(workdir, "script.txt")
@@ -68,7 +68,7 @@ def run_script(drv, lines, workdir, tmpdir_mode=False, env=None, wrapper=None, c
         f.write("\n".join(lines) + "\n")
     logdir = os.path.join(workdir, "logs")
     os.makedirs(logdir, exist_ok=True)
-    tracedir = os.path.join(workdir, "trace")
+    tracedir = tracedir or os.path.join(workdir, "trace")
     e = {"OVNI_TRACEDIR": tracedir}
     rr = RunResult()
     rr.tracedir = tracedir
